@@ -5,7 +5,7 @@ group requests use every declared name (in every table) plus a name nothing decl
 uninterpreted predicate over (cache name, key), i.e. all subsets of the stored keys at once."""
 import time, re
 import z3
-from .engine import (Interp, Ctx, Agg, Cell, Ref, Str, EnvFn, explore, run_single, Unsupported, Panic, Deadlock, Infeasible,
+from .engine import (Interp, Ctx, Agg, Cell, Ref, Str, SeqM, EnvFn, explore, run_single, Unsupported, Panic, Deadlock, Infeasible,
                      is_conc, is_z3, simp, b_and, b_or, b_not, deref_all, str_eq, term_eq)
 from . import wrap
 from .vc_wrap import install_cache_hook, cache_parts, arg_tuple, tuple_eq, render_key, subject_args
@@ -84,6 +84,18 @@ def run(P, item):
         counts = {n: (0 if (n in unused or n in late) else nfill) for n in subj_names}
         cur = {'name': None}
         args = {}; calls = {}; outcomes = {}
+        def api(ty, meth):
+            c = P.methods.get((ty, meth), [])
+            if len(c) != 1: raise Unsupported(f'public API {ty}::{meth} not found')
+            return c[0]
+        def announce(name, extra_tag=None):
+            # user code registering the cache through the public registry API with the rules its attribute declares (plus, optionally, a run-time tag)
+            it_ = subjs[name].rec['intended']
+            mk = lambda xs: SeqM([Str(x) for x in xs], 'Vec')
+            md = run_single(ctx, I.call_fn(ctx, api('InvalidationMetadata', 'new'), [mk(list(it_['tags']) + ([extra_tag] if extra_tag else [])), mk(it_['events']), mk(it_['dependencies'])]))
+            reg = run_single(ctx, I.call_fn(ctx, api('InvalidationRegistry', 'global'), []))
+            run_single(ctx, I.call_fn(ctx, api('InvalidationRegistry', 'register'), [reg, Ref(Cell(Str(it_['cache_name']), 'n')), md]))
+        for name in item.get('prereg', []): announce(name)
         for name, k in counts.items():
             S = subjs[name]; arity = len(S.rec['args']); tl = []
             for i in range(k):
@@ -100,6 +112,7 @@ def run(P, item):
                     if e[0] == 'pred': oc['pred'] = e[5]
                 outcomes.setdefault(name, []).append(oc)
             args[name] = tl
+        for name in item.get('rereg', []): announce(name, 'xtra_runtime_tag')
         used = [n for n in subj_names if counts[n] > 0]
         used_first = list(used)
         pre = {}
@@ -177,7 +190,7 @@ def run(P, item):
                                           witness=inv_witness(ctx, model, item, d, cname)))
     return dict(paths=res['paths'], claims=res['claims'], failed=res['failed'], classes=sorted(res['classes']), funcs=sorted(res['funcs']), builtins=sorted(res['builtins']),
                 checks=st['checks'], solver_s=st['solver_s'], blocks=st['blocks'], infeasible=st['infeasible'],
-                tag=f"INV {mode} {item.get('kind2', '')}:{item.get('name', '*')} unused={sorted(item.get('unused', []))} late={sorted(item.get('late', []))} fill={item.get('nfill', 2)}{' x2' if item.get('repeat') else ''}")
+                tag=f"INV {mode} {item.get('kind2', '')}:{item.get('name', '*')} unused={sorted(item.get('unused', []))} late={sorted(item.get('late', []))}{' prereg=' + str(item['prereg']) if item.get('prereg') else ''}{' rereg=' + str(item['rereg']) if item.get('rereg') else ''} fill={item.get('nfill', 2)}{' x2' if item.get('repeat') else ''}")
 
 
 def same_keys(a, b):
@@ -262,7 +275,7 @@ def inv_witness(ctx, model, item, d, cname):
         if z3.is_true(v): return True
         if z3.is_false(v): return False
         return str(v)
-    w = dict(mode=item['mode'], kind2=item.get('kind2'), kind2b=item.get('kind2b'), name=item.get('name'), cache=cname, unused=sorted(item.get('unused', [])),
+    w = dict(prereg=list(item.get('prereg', [])), rereg=list(item.get('rereg', [])), mode=item['mode'], kind2=item.get('kind2'), kind2b=item.get('kind2b'), name=item.get('name'), cache=cname, unused=sorted(item.get('unused', [])),
              fills={n: [[ev(x) for x in t] for t in ts] for n, ts in d['args'].items()},
              pred=[(cn, render_key(k, ev), ev(b)) for cn, k, b in d['pred'].memo], ret=(ev(d['ret']) if d['ret'] is not None and not isinstance(d['ret'], Agg) else None),
              late=sorted(item.get('late', [])), repeat=bool(item.get('repeat')), post_keys={n: [render_key(k, ev) for k in d['post'][n][0]] for n in d['used']}, post_queue={n: [render_key(k, ev) for k in d['post'][n][1]] for n in d['used']},
@@ -288,9 +301,14 @@ def replay(f, w):
     def was_stored(n, i):
         os = (w.get('outcomes') or {}).get(n) or []
         return True if i >= len(os) else (os[i]['ok'] and os[i]['pred'])
+    def regline(n, extra=None):
+        it_ = subs[n]['intended']; cs = lambda xs: ','.join(xs) if xs else '-'
+        return f"reg {it_['cache_name']} {cs(list(it_['tags']) + ([extra] if extra else []))} {cs(it_['events'])} {cs(it_['dependencies'])}"
+    for n in w.get('prereg') or []: L.append(regline(n))
     for n, ts in w['fills'].items():
         if n in late: continue
         for t in ts: L.append(callline(n, t))
+    for n in w.get('rereg') or []: L.append(regline(n, 'xtra_runtime_tag'))
     if w['mode'] == 'group':
         L.append({'tag': 'inv_tag', 'event': 'inv_event', 'dep': 'inv_dep', 'cache': 'inv_cache'}[w['kind2']] + ' ' + w['name'])
     elif w['mode'] == 'with':
